@@ -183,7 +183,7 @@ struct ArchiveDamage : Family {
 			else if (c < 38) { op = mkline("op", "index"); op.set("q", r.below(100)).set("case", r.below(6)); }
 			else if (c < 44) { op = mkline("op", "contains"); op.set("q", r.below(100)).set("case", r.below(6)); }
 			else if (c < 74) { op = mkline("op", "stream"); op.set("i", idx).set("rseed", hex64(r.next())); if (r.chance(1, 3)) op.set("byname", 1).set("case", r.below(6)); }
-			else if (c < 92) { op = mkline("op", "extract"); op.set("i", idx); }
+			else if (c < 92) { op = mkline("op", "extract"); op.set("i", idx); if (r.chance(1, 4)) op.set("ontoself", 1); }
 			else op = mkline("op", "extractall");
 			// failing allocation inside this call, on the long-lived object only: whatever the outcome, the object must stay usable
 			if (r.chance(1, 5)) op.set("allocfail", 1 + r.below(12));
@@ -268,6 +268,9 @@ struct ArchiveDamage : Family {
 		}
 		else if (v == "extract") {
 			std::string path = "_x" + tag + "/f.bin";
+			// an index that no per-member call may accept, with the archive's OWN path as destination: the call is refused, and a refused
+			// call leaves everything as it was - the archive file included (judged by the calls that follow)
+			if (op.u("ontoself", 0) && idxOf(op) >= count) path = t.path;
 			r.out = callLib(plan, [&] { ar.ExtractFile(idxOf(op), path); }, &r.what);
 			std::vector<uint8_t> f;
 			if (r.out == OkOut && disk::get(path, f)) r.value = fnv1a(f.data(), f.size()) ^ f.size();
@@ -350,6 +353,7 @@ struct ArchiveDamage : Family {
 					{ Armed a; count = A->GetCount(); }
 					if (count > 100000) ctx.count("probe.huge_member_count");
 					bool aFailedBefore = false;
+					size_t cloneAt = (mix64(plan.seed, 0xC10E) % 3 == 0) ? static_cast<size_t>(mix64(plan.seed, 0xC10F) % 6) : SIZE_MAX;
 					// on the undamaged archive every member is, after the planned calls, also streamed by the name listed for it
 					std::vector<Line> ops = plan.ops;
 					if (!changed && count <= 64) for (size_t mi = 0; mi < count; ++mi) { Line so = mkline("op", "stream"); so.set("i", "~" + std::to_string(mi)).set("rseed", hex64(mix64(plan.seed, mi))).set("byname", 1).set("case", mi % 6); ops.push_back(so); }
@@ -359,6 +363,17 @@ struct ArchiveDamage : Family {
 						if (vi == 0) ctx.schedNote(op.verb);
 						uint64_t allocFail = op.u("allocfail", 0);
 						uint64_t injectedBefore = g_alloc.injectedFailures;
+						if (oi == cloneAt) {
+							// value semantics: the long-lived object is replaced by a copy of itself, the original is destroyed (only if
+							// the type can be copied at all - no property promises that)
+							std::string cw;
+							Out co = callLib(plan, [&] {
+								if (Avol) { if constexpr (std::is_copy_constructible<Archive::VolFile>::value) { auto c = std::make_unique<Archive::VolFile>(*Avol); Avol = c.get(); A = std::move(c); } }
+								else if (auto* cl = dynamic_cast<Archive::ClmFile*>(A.get())) { if constexpr (std::is_copy_constructible<Archive::ClmFile>::value) { auto c = std::make_unique<Archive::ClmFile>(*cl); A = std::move(c); } }
+							}, &cw);
+							if (co == ErrOther) ctx.fail("C05.ordinary-error", "copying the archive object failed with something that is not a std::exception");
+							ctx.count("probe.archive_object_cloned");
+						}
 						g_alloc.failCountdown = allocFail;
 						uint64_t openFiredBefore = g_fault.firedOpenFail;
 						g_fault.openFailCountdown = op.u("openfail", 0);
